@@ -480,7 +480,7 @@ Proof.
   intros F. induction F as [|rcv t pieces l Hs F IH]; intros T; [reflexivity|].
   inversion T as [|? ? Tv T']; subst. destruct t as [[r c] v]. simpl in Tv.
   destruct (shaped_first rcv r c v Hs Tv) as (c' & v' & E1).
-  cbn [obs_rows]. rewrite E1, lookup_remap.
+  cbn [obs_rows]. destruct (strip_f rcv) as [|s0 st] eqn:Es; [discriminate|]. rewrite E1, lookup_remap.
   unfold subset_obs in *. cbn [filter map fst snd].
   destruct (nmem r keep) eqn:M.
   - unfold remap_axis_obs. rewrite (shaped_fields rcv r c v Hs Tv), lookup_remap, M.
@@ -494,7 +494,9 @@ Lemma samp_rows_shaped keep pieces l :
 Proof.
   intros F. induction F as [|rcv t pieces l Hs F IH]; intros T; [reflexivity|].
   inversion T as [|? ? Tv T']; subst. destruct t as [[r c] v]. simpl in Tv.
-  cbn [samp_rows]. rewrite (shaped_fields rcv r c v Hs Tv), lookup_remap.
+  destruct (shaped_first rcv r c v Hs Tv) as (c' & v' & E1).
+  cbn [samp_rows]. destruct (strip_f rcv) as [|s0 st] eqn:Es; [discriminate|].
+  rewrite (shaped_fields rcv r c v Hs Tv), lookup_remap.
   unfold subset_samp in *. cbn [filter map fst snd].
   destruct (nmem c keep) eqn:M.
   - unfold remap_axis_samp. rewrite (shaped_fields rcv r c v Hs Tv), lookup_remap, M.
@@ -599,22 +601,24 @@ Qed.
 Lemma triples_ok_tokz l : triples_ok l -> triples_tokz l.
 Proof. apply Forall_impl. intros t. apply tok_ok_tokz. Qed.
 
-(* what the slicers return on every printing of a non-empty entry list *)
-Lemma slice_obs_text w l keep : ws_ok w -> triples_ok l -> l <> [] ->
-  slice_obs (print_inner w l) keep = ROk (wrap_rows (map crow (subset_obs keep l))).
+(* what the slicers return on every printing of an entry list *)
+Lemma slice_obs_text w l keep : ws_ok w -> triples_ok l ->
+  slice_obs (print_inner w l) keep = ROk (out_rows (map crow (subset_obs keep l))).
 Proof.
-  intros W T Hne. pose proof W as (B1 & _). unfold slice_obs, print_inner.
-  destruct l as [|t r] eqn:El; [congruence|]. rewrite <- El in *.
+  intros W T. pose proof W as (B1 & _). unfold slice_obs, print_inner.
+  destruct l as [|t r] eqn:El; [reflexivity|]. rewrite <- El in *.
+  assert (Hne : l <> []) by (rewrite El; discriminate).
   rewrite (split2_rows w W l (w_open w) Hne T B1).
   rewrite (obs_rows_shaped keep _ l (pieces_shaped w W l (w_open w) B1) (triples_ok_tokz l T)).
   reflexivity.
 Qed.
 
-Lemma slice_samp_text w l keep : ws_ok w -> triples_ok l -> l <> [] ->
-  slice_samp (print_inner w l) keep = ROk (wrap_rows (map crow (subset_samp keep l))).
+Lemma slice_samp_text w l keep : ws_ok w -> triples_ok l ->
+  slice_samp (print_inner w l) keep = ROk (out_rows (map crow (subset_samp keep l))).
 Proof.
-  intros W T Hne. pose proof W as (B1 & _). unfold slice_samp, print_inner.
-  destruct l as [|t r] eqn:El; [congruence|]. rewrite <- El in *.
+  intros W T. pose proof W as (B1 & _). unfold slice_samp, print_inner.
+  destruct l as [|t r] eqn:El; [reflexivity|]. rewrite <- El in *.
+  assert (Hne : l <> []) by (rewrite El; discriminate).
   rewrite (split2_rows w W l (w_open w) Hne T B1).
   rewrite (samp_rows_shaped keep _ l (pieces_shaped w W l (w_open w) B1) (triples_ok_tokz l T)).
   reflexivity.
@@ -643,8 +647,12 @@ Proof.
   rewrite app_nil_r. f_equal. f_equal. rewrite <- app_assoc. reflexivity.
 Qed.
 
-Lemma wrap_rows_nil : wrap_rows [] = [LBRACK; LBRACK; RBRACK; RBRACK].
-Proof. reflexivity. Qed.
+Lemma out_rows_compact l : out_rows (map crow l) = print_ws ws_compact l.
+Proof.
+  destruct l as [|t r] eqn:E; [reflexivity|]. rewrite <- E.
+  assert (l <> []) as Hne by (rewrite E; discriminate).
+  rewrite <- (wrap_rows_compact l Hne). rewrite E. reflexivity.
+Qed.
 
 (* ------------------------------------------------------------------ the reference reader reads every printing back *)
 Lemma blank_char c : is_blank c = true ->
@@ -818,50 +826,29 @@ Proof. repeat split; repeat constructor. Qed.
 Lemma ws_indent2_ok : ws_ok ws_indent2.
 Proof. repeat split; repeat constructor. Qed.
 
-Theorem slice_obs_ws_proof w l keep : ws_ok w -> triples_ok l -> subset_obs keep l <> [] ->
+Theorem slice_obs_ws_proof w l keep : ws_ok w -> triples_ok l ->
   exists out, slice_obs (print_inner w l) keep = ROk out /\ parse_triples out = Some (subset_obs keep l).
 Proof.
-  intros W T Hs. assert (l <> []) as Hne by (intros E; subst; apply Hs; reflexivity).
-  exists (wrap_rows (map crow (subset_obs keep l))). split; [apply slice_obs_text; assumption|].
-  rewrite wrap_rows_compact by exact Hs. apply parse_print_ws; [apply ws_compact_ok|apply subset_obs_ok; exact T].
+  intros W T. exists (out_rows (map crow (subset_obs keep l))). split; [apply slice_obs_text; assumption|].
+  rewrite out_rows_compact. apply parse_print_ws; [apply ws_compact_ok|apply subset_obs_ok; exact T].
 Qed.
 
-Theorem slice_samp_ws_proof w l keep : ws_ok w -> triples_ok l -> subset_samp keep l <> [] ->
+Theorem slice_samp_ws_proof w l keep : ws_ok w -> triples_ok l ->
   exists out, slice_samp (print_inner w l) keep = ROk out /\ parse_triples out = Some (subset_samp keep l).
 Proof.
-  intros W T Hs. assert (l <> []) as Hne by (intros E; subst; apply Hs; reflexivity).
-  exists (wrap_rows (map crow (subset_samp keep l))). split; [apply slice_samp_text; assumption|].
-  rewrite wrap_rows_compact by exact Hs. apply parse_print_ws; [apply ws_compact_ok|apply subset_samp_ok; exact T].
+  intros W T. exists (out_rows (map crow (subset_samp keep l))). split; [apply slice_samp_text; assumption|].
+  rewrite out_rows_compact. apply parse_print_ws; [apply ws_compact_ok|apply subset_samp_ok; exact T].
 Qed.
 
 (* the result does not depend on the whitespace of the input *)
-Theorem slice_ws_indep_proof w1 w2 l keep : ws_ok w1 -> ws_ok w2 -> triples_ok l -> l <> [] ->
+Theorem slice_ws_indep_proof w1 w2 l keep : ws_ok w1 -> ws_ok w2 -> triples_ok l ->
   slice_obs (print_inner w1 l) keep = slice_obs (print_inner w2 l) keep /\
   slice_samp (print_inner w1 l) keep = slice_samp (print_inner w2 l) keep.
 Proof.
-  intros W1 W2 T Hne. split.
+  intros W1 W2 T. split.
   - rewrite !slice_obs_text by assumption. reflexivity.
   - rewrite !slice_samp_text by assumption. reflexivity.
 Qed.
-
-Definition T_EMPTY_ROWS : text := [LBRACK; LBRACK; RBRACK; RBRACK].      (* the text [[]] *)
-
-(* no stored entry survives: the slicers emit [[]], which is not an entry list *)
-Theorem slice_none_kept_proof w l keep : ws_ok w -> triples_ok l -> l <> [] ->
-  (subset_obs keep l = [] -> slice_obs (print_inner w l) keep = ROk T_EMPTY_ROWS) /\
-  (subset_samp keep l = [] -> slice_samp (print_inner w l) keep = ROk T_EMPTY_ROWS) /\
-  parse_triples T_EMPTY_ROWS = None.
-Proof.
-  intros W T Hne. split; [|split].
-  - intros E. rewrite slice_obs_text by assumption. rewrite E. reflexivity.
-  - intros E. rewrite slice_samp_text by assumption. rewrite E. reflexivity.
-  - reflexivity.
-Qed.
-
-(* an all-zero table: "data": [] has nothing between the brackets, whatever the whitespace *)
-Theorem slice_zero_table_proof w keep :
-  print_inner w [] = [] /\ slice_obs [] keep = RErr E_VALUE /\ slice_samp [] keep = RErr E_VALUE.
-Proof. repeat split. Qed.
 
 (* ------------------------------------------------------------------ direct_parse_key on header pairs *)
 Lemma scan_str_plain c rest n : c <> QUOTE -> c <> BSL -> scan_str (c :: rest) n = scan_str rest (S n).
@@ -980,4 +967,137 @@ Proof.
       repeat match type of Ha with (_ || _) = false => apply orb_false_iff in Ha; destruct Ha as [Ha ?] end.
       rewrite Ha. match goal with H : (a =? LBRACE) = false |- _ => rewrite H end.
       match goal with H : (a =? RBRACE) = false |- _ => rewrite H end. reflexivity.
+Qed.
+
+(* ------------------------------------------------------------------ the bracket scanner on text without strings *)
+Definition plainb (c : Z) : bool := negb ((c =? QUOTE) || is_open c || is_close c).
+
+Inductive bal : text -> Prop :=
+| bal_nil : bal []
+| bal_plain c b : plainb c = true -> bal b -> bal (c :: b)
+| bal_nest o b1 cl b2 : is_open o = true -> is_close cl = true -> bal b1 -> bal b2 -> bal (o :: b1 ++ cl :: b2).
+
+Lemma open_facts o : is_open o = true -> (o =? QUOTE) = false /\ is_close o = false.
+Proof.
+  unfold is_open, is_close, LBRACK, LBRACE, RBRACK, RBRACE, QUOTE. intros H.
+  destruct (o =? 91) eqn:E1; [zb; subst; split; reflexivity|].
+  destruct (o =? 123) eqn:E2; [zb; subst; split; reflexivity|]. discriminate.
+Qed.
+Lemma close_facts c : is_close c = true -> (c =? QUOTE) = false.
+Proof.
+  unfold is_close, RBRACK, RBRACE, QUOTE. intros H.
+  destruct (c =? 93) eqn:E1; [zb; subst; reflexivity|].
+  destruct (c =? 125) eqn:E2; [zb; subst; reflexivity|]. discriminate.
+Qed.
+
+Lemma scan_obj_bal b : bal b -> forall rest top below n,
+  scan_obj (b ++ rest) (top :: below) n = scan_obj rest (top :: below) (n + length b)%nat.
+Proof.
+  intros B. induction B as [|c b Hc B IH|o b1 cl b2 Ho Hcl B1 IH1 B2 IH2]; intros rest top below n.
+  - cbn [app length]. f_equal. lia.
+  - unfold plainb in Hc. apply negb_true_iff in Hc. apply orb_false_iff in Hc. destruct Hc as [Hc H3].
+    apply orb_false_iff in Hc. destruct Hc as [H1 H2].
+    cbn [app scan_obj length]. rewrite H1, H3, H2. rewrite IH. f_equal. lia.
+  - destruct (open_facts o Ho) as [Q1 Q2]. pose proof (close_facts cl Hcl) as Q3.
+    cbn [app scan_obj]. rewrite Q1, Q2, Ho. rewrite <- app_assoc. rewrite IH1.
+    cbn [app scan_obj]. rewrite Q3, Hcl. rewrite IH2. f_equal. cbn [length]. rewrite app_length. cbn [length]. lia.
+Qed.
+
+Lemma scan_obj_nil s n : scan_obj s [] n = Some n.
+Proof. destruct s; reflexivity. Qed.
+
+Lemma bal_app a b : bal a -> bal b -> bal (a ++ b).
+Proof.
+  intros A B. induction A as [|c a Hc A IH|o a1 cl a2 Ho Hcl A1 IH1 A2 IH2]; cbn [app].
+  - exact B.
+  - apply bal_plain; assumption.
+  - rewrite <- app_assoc. cbn [app]. apply bal_nest; assumption.
+Qed.
+
+Lemma plain_bal s : Forall (fun c => plainb c = true) s -> bal s.
+Proof. intros F. induction F; [constructor|apply bal_plain; assumption]. Qed.
+
+Lemma blank_plain w : blank w -> Forall (fun c => plainb c = true) w.
+Proof.
+  apply Forall_impl. intros c H. unfold is_blank, SP, NL, TAB in H. unfold plainb, is_open, is_close, QUOTE, LBRACK, LBRACE, RBRACK, RBRACE.
+  destruct (c =? 32) eqn:E1; [zb; subst; reflexivity|].
+  destruct (c =? 10) eqn:E2; [zb; subst; reflexivity|].
+  destruct (c =? 9) eqn:E3; [zb; subst; reflexivity|]. discriminate.
+Qed.
+Lemma print_nat_plain n : Forall (fun c => plainb c = true) (print_nat n).
+Proof.
+  pose proof (print_nat_digits n) as D. revert D. apply Forall_impl. intros c H. apply digit_chars in H.
+  destruct H as (_ & _ & _ & _ & _ & H1 & H2 & H3 & _). unfold plainb. apply Z.eqb_neq in H1. rewrite H1, H2, H3. reflexivity.
+Qed.
+
+(* values without quotes or brackets (numbers) *)
+Definition plain_vals (l : list triple) : Prop := Forall (fun t => Forall (fun c => plainb c = true) (snd t)) l.
+
+Lemma bal_row w t : ws_ok w -> Forall (fun c => plainb c = true) (snd t) -> bal (print_row w t).
+Proof.
+  intros (B1 & B2 & B3 & B4 & B5 & B6) Pv. rewrite print_row_body.
+  change (LBRACK :: row_body w t ++ [RBRACK]) with (LBRACK :: row_body w t ++ RBRACK :: []).
+  apply bal_nest; [reflexivity|reflexivity| |constructor].
+  unfold row_body.
+  repeat first [apply bal_app | apply bal_plain; [reflexivity|] | apply plain_bal; apply blank_plain; assumption
+               | apply plain_bal; apply print_nat_plain | apply plain_bal; exact Pv ].
+Qed.
+
+Lemma bal_rows w l : ws_ok w -> plain_vals l -> bal (print_rows w l).
+Proof.
+  intros W P. pose proof W as (B1 & B2 & B3 & B4 & B5 & B6).
+  induction l as [|t r IH]; [constructor|]. inversion P as [|? ? Pt Pr]; subst.
+  destruct r as [|t2 r]; [apply bal_row; assumption|].
+  change (print_rows w (t :: t2 :: r)) with (print_row w t ++ [COMMA] ++ w_rows w ++ print_rows w (t2 :: r)).
+  apply bal_app; [apply bal_row; assumption|]. apply bal_plain; [reflexivity|].
+  apply bal_app; [apply plain_bal, blank_plain; exact B5|apply IH; exact Pr].
+Qed.
+
+Lemma bal_inner w l : ws_ok w -> plain_vals l -> bal (print_inner w l).
+Proof.
+  intros W P. pose proof W as (B1 & B2 & B3 & B4 & B5 & B6). unfold print_inner.
+  destruct l as [|t r] eqn:E; [constructor|]. rewrite <- E in *.
+  apply bal_app; [apply plain_bal, blank_plain; exact B1|].
+  apply bal_app; [apply bal_rows; assumption|apply plain_bal, blank_plain; exact B6].
+Qed.
+
+Lemma find_char x a rest : Forall (fun c => c <> x) a -> find_sub [x] (a ++ x :: rest) = Some (length a).
+Proof.
+  intros F. induction F as [|c a Hc F IH].
+  - cbn [app]. rewrite find_sub_unfold. cbn [prefixb]. rewrite Z.eqb_refl. reflexivity.
+  - cbn [app]. rewrite find_sub_unfold. cbn [prefixb].
+    assert (x =? c = false) as E by (apply Z.eqb_neq; congruence). rewrite E. cbn [andb].
+    rewrite IH. reflexivity.
+Qed.
+
+Lemma space_not_lbrack w : Forall (fun c => is_space c = true) w -> Forall (fun c => c <> LBRACK) w.
+Proof. apply Forall_impl. intros c H E. subst. discriminate. Qed.
+
+(* direct_parse_key finds the whole "data" array by bracket matching, and direct_slice_data
+   cuts out exactly what lies between its outer brackets *)
+Theorem parse_key_data_ok_proof pre sp w l post :
+  no_occ_before (key_pat K_DATA) (pre ++ (key_pat K_DATA ++ sp ++ print_ws w l) ++ post) (length pre) ->
+  Forall (fun c => is_space c = true) sp -> ws_ok w -> plain_vals l ->
+  direct_parse_key (pre ++ (key_pat K_DATA ++ sp ++ print_ws w l) ++ post) K_DATA
+    = ROk (key_pat K_DATA ++ sp ++ print_ws w l)
+  /\ data_inner (key_pat K_DATA ++ sp ++ print_ws w l) = print_inner w l.
+Proof.
+  intros Hocc Fs W P. split.
+  - unfold direct_parse_key. rewrite <- !app_assoc in *. rewrite (find_sub_app _ _ _ Hocc).
+    rewrite (skipn_app_exact pre _ _ eq_refl).
+    rewrite (skipn_app_exact (key_pat K_DATA) _ _ (eq_sym (key_pat_length K_DATA))).
+    unfold print_ws. cbn [app]. rewrite skip_space_app by (assumption || reflexivity).
+    change (LBRACK =? QUOTE) with false. change (is_open LBRACK) with true. cbn [negb]. cbv iota.
+    rewrite <- app_assoc. rewrite (scan_obj_bal _ (bal_inner w l W P)).
+    cbn [app scan_obj]. change (RBRACK =? QUOTE) with false. change (is_close RBRACK) with true. cbv iota.
+    rewrite scan_obj_nil. f_equal.
+    replace (key_pat K_DATA ++ sp ++ LBRACK :: print_inner w l ++ RBRACK :: post)
+      with ((key_pat K_DATA ++ sp ++ LBRACK :: print_inner w l ++ [RBRACK]) ++ post)
+      by (repeat (rewrite <- app_assoc; cbn [app]); reflexivity).
+    apply firstn_app_exact. rewrite !app_length, key_pat_length. cbn [length]. rewrite app_length. cbn [length]. lia.
+  - unfold data_inner, print_ws. cbn [app]. rewrite app_assoc.
+    rewrite find_char by (apply Forall_app; split; [repeat constructor; discriminate|apply space_not_lbrack; exact Fs]).
+    change (LBRACK :: print_inner w l ++ [RBRACK]) with ([LBRACK] ++ print_inner w l ++ [RBRACK]).
+    rewrite app_assoc. rewrite skipn_app_exact by (rewrite !app_length; cbn [length]; lia).
+    apply firstn_app_exact. rewrite !app_length. cbn [length]. lia.
 Qed.
